@@ -302,6 +302,14 @@ def k_orbit(params):
         orbit = make_orbit(system, fam, Ln, amp)
     except Exception as exc:
         return res(evals=1, nontrivial=0, sample={"tag": tag, "outcome": "seed rejected: %s" % type(exc).__name__}, stats={"orbit_seed_rejected": 1})
+    if params.get("pre_tol"):
+        # history: the same orbit object is first corrected to a loose tolerance, then (below) to the requested one; every statement is about
+        # the outcome of the last correction
+        tag += " after an earlier correct(tol=%g) on the same object" % params["pre_tol"]
+        try:
+            orbit.correct(options=with_tol(orbit, params["pre_tol"]))
+        except Exception:
+            pass
     before = (np.array(orbit.initial_state, dtype=float), orbit.period)
     try:
         result = orbit.correct(options=with_tol(orbit, tol))
@@ -383,4 +391,7 @@ def cases(tier, seed):
                         amp = amp * 0.05
                     for tol in ((1e-12,) if tier == "quick" else (1e-10, 1e-12)):
                         out.append(("orbit", {"system": sysn, "family": fam, "point": Ln, "amp": amp, "tol": tol}))
+                    if fam != "vertical" and (tier != "quick" or amp == al[0]):
+                        for pre in ((1e-5,) if tier == "quick" else (1e-4, 1e-5, 1e-7)):
+                            out.append(("orbit", {"system": sysn, "family": fam, "point": Ln, "amp": amp, "tol": 1e-12, "pre_tol": pre}))
     return out
